@@ -95,6 +95,37 @@ def family_complete(terms, intercept, frame):
     return np.column_stack(cols)
 
 
+def model_dim(terms, intercept, frame, width=None):
+    """Dimension of the space spanned by the complete-indicator coding of a family of terms on fully crossed data in
+    general position, computed combinatorially: terms are grouped by their numeric part; within a group the
+    categorical parts span the down-closure of their factor sets, each subset S contributing prod(n_i - 1)."""
+    import itertools
+
+    by_num = {}
+    for t in terms:
+        cats = frozenset(a for a in t if is_cat(a))
+        nums = frozenset(a for a in t if not is_cat(a))
+        by_num.setdefault(nums, set()).add(cats)
+    if intercept:
+        by_num.setdefault(frozenset(), set()).add(frozenset())
+    dim = 0
+    for nums, catsets in by_num.items():
+        w = 1
+        for a in nums:
+            w *= (width(a) if width else NUM_WIDTH.get(a, 1))
+        closed = set()
+        for c in catsets:
+            for k in range(len(c) + 1):
+                for sub in itertools.combinations(sorted(c), k):
+                    closed.add(frozenset(sub))
+        for sub in closed:
+            d = 1
+            for a in sub:
+                d *= len(set(frame[atom_base(a)].tolist())) - 1
+            dim += w * d
+    return dim
+
+
 # ---- rank / span ---------------------------------------------------------------------------------
 def rank(m, tol=1e-8):
     m = np.asarray(m, dtype=float)
